@@ -530,6 +530,7 @@ type v6DocEntry struct {
 type v6Resolver struct {
 	mu   sync.Mutex
 	docs map[string]v6DocEntry // did + "@" + source ref hex
+	latest map[string]v6DocEntry // did -> most recently registered version
 	keys []*v6Key
 }
 
@@ -541,6 +542,10 @@ func (r *v6Resolver) Resolve(id did.DID, md *resolver.ResolveMetadata) (*did.Doc
 		src = md.SourceTransaction.String()
 	}
 	e, ok := r.docs[id.String()+"@"+src]
+	if src == "" {
+		// no source transaction asked for: the latest version of the document (what a resolver without metadata returns)
+		e, ok = r.latest[id.String()]
+	}
 	if !ok {
 		return nil, nil, resolver.ErrNotFound
 	}
@@ -655,7 +660,7 @@ func v6NewNode(base string, subs []v6Sub, keys []*v6Key) *v6Node {
 		panic(err)
 	}
 	n := &v6Node{dir: dir, inner: inner, gate: &v6Gate{KVStore: inner}, subs: subs, ledger: map[string][]string{}, notifs: map[string]Notifier{},
-		res: &v6Resolver{docs: map[string]v6DocEntry{}, keys: keys}}
+		res: &v6Resolver{docs: map[string]v6DocEntry{}, latest: map[string]v6DocEntry{}, keys: keys}}
 	s, err := NewState(n.gate, NewPrevTransactionsVerifier(), NewTransactionSignatureVerifier(SourceTXKeyResolver{Resolver: n.res}))
 	if err != nil {
 		panic(err)
@@ -853,6 +858,7 @@ type v6Op struct {
 	Doc   *v6DocEntry `json:"doc,omitempty"`
 	Calls []v6Call `json:"calls,omitempty"`
 	Sched []int    `json:"sched,omitempty"`
+	Obs   bool     `json:"obs,omitempty"` // observe the state after every step of the schedule
 	Note  string   `json:"note,omitempty"`
 }
 
@@ -922,6 +928,7 @@ func (x *v6Exec) run(op v6Op) string {
 	case "doc":
 		x.node.res.mu.Lock()
 		x.node.res.docs[op.Did+"@"+op.Src] = *op.Doc
+		x.node.res.latest[op.Did] = *op.Doc
 		x.node.res.mu.Unlock()
 		return "doc"
 	case "add":
@@ -988,8 +995,13 @@ func (x *v6Exec) sched(op v6Op) string {
 			}
 		}
 	}
+	var mid []string
 	for _, t := range op.Sched {
 		stepOne(t)
+		if op.Obs {
+			// what every observer sees between two steps (reads take the read lock; no controlled thread holds a lock now)
+			mid = append(mid, x.node.observe())
+		}
 	}
 	for t := 0; t < n; t++ { // complete whatever the schedule left unfinished (generator emits complete schedules)
 		for status[t] != 2 {
@@ -997,7 +1009,11 @@ func (x *v6Exec) sched(op v6Op) string {
 		}
 	}
 	x.node.gate.ctl = nil
-	return "res=" + strings.Join(results, ",") + " | " + x.node.observe()
+	pre := ""
+	if op.Obs {
+		pre = "mid=" + strings.Join(mid, " ;; ") + " || "
+	}
+	return pre + "res=" + strings.Join(results, ",") + " | " + x.node.observe()
 }
 
 // ---------------------------------------------------------------- generators
@@ -1802,7 +1818,7 @@ func (g *v6Gen) genSchedules(threads int, scenarios int) {
 				c := prefix[i]
 				g.emit(v6Op{Op: "add", Call: &c})
 			}
-			g.emit(v6Op{Op: "sched", Calls: calls, Sched: il, Note: note})
+			g.emit(v6Op{Op: "sched", Calls: calls, Sched: il, Note: note, Obs: true})
 		}
 	}
 }
